@@ -118,6 +118,7 @@ class World:
         self.worker_main = None
         self.draining = set()
         self.failed_vars = set()
+        self.first_tablesize = {}
         self.open_bodies = 0
 
     # ------------------------------------------------------------ observation
@@ -232,8 +233,14 @@ class World:
         evs = []
         for e in self.s.events:
             if e["ev"] == "stuck":
+                tables = ""
+                try:
+                    tables = " tables i:%s/%s w:%s/%s" % (sorted(self.gw._channelfactory._channels.keys()), sorted(self.gw._channelfactory._callbacks),
+                                                          sorted(self.wgw._channelfactory._channels.keys()), sorted(self.wgw._channelfactory._callbacks))
+                except Exception:
+                    pass
                 evs.append({"ev": "stuck", "side": "", "op": "", "chan": 0, "tok": 0,
-                            "res": ",".join(b["task"] + ":" + b["why"][0] for b in e["blocked"]), "thread": "", "flag": False})
+                            "res": ",".join(b["task"] + ":" + b["why"][0] for b in e["blocked"]) + tables, "thread": "", "flag": False})
             elif e["ev"] == "task_died":
                 evs.append({"ev": "died", "side": "", "op": "", "chan": 0, "tok": 0, "res": e["exc"] + ":" + e.get("msg", "")[:80],
                             "thread": e["task"], "flag": False})
@@ -415,9 +422,19 @@ class World:
                     boom_at = op[3] if len(op) > 3 else None
                     boom_exc = {"key": KeyError, "lookup": LookupError, "os": OSError, "eof": EOFError}.get(op[4] if len(op) > 4 else "", RuntimeError)
 
+                    closeself = len(op) > 4 and op[4] == "closeself"
+                    holder = [c] if closeself else []
+
                     def cb(item, cid=cid, side=side, boom_at=boom_at, boom_exc=boom_exc):
                         tok = ENDMARK_TOKEN if item == "ENDMARK" and isinstance(item, str) else self.tok_of(item)
-                        self.ev("cb", side, "", cid, tok, flag=(boom_at is not None and tok == boom_at))
+                        self.ev("cb", side, "", cid, tok, flag=(boom_at is not None and tok == boom_at and not closeself))
+                        if closeself and tok == boom_at and holder:
+                            # the callback closes its own channel while it is being fed (e.g. "got the last item")
+                            chan = holder.pop()
+                            self.ev("call", side, "close", cid)
+                            chan.close()
+                            self.ev("ret", side, "close", cid, 0, "ok")
+                            return
                         if boom_at is not None and tok == boom_at:
                             raise boom_exc("BOOM in callback")
 
@@ -503,9 +520,20 @@ class World:
                 elif k == "cut":
                     p = self.p_wi if op[1] == "w>i" else self.p_iw
                     p.cut_here()
-                elif k == "tablesize":
+                elif k in ("tablesize", "tablesize_settled"):
                     g = self.gw if side == "i" else self.wgw
-                    n = len(g._channelfactory._channels) + len(g._channelfactory._callbacks)
+
+                    def size(g=g):
+                        return len(g._channelfactory._channels) + len(g._channelfactory._callbacks)
+
+                    if k == "tablesize_settled":
+                        # closes travel asynchronously: wait (forever if need be -> reported as blocked) until the tables are back
+                        # to the size of the first measurement, then report
+                        base = self.first_tablesize.get(side, 0)
+                        gc.collect()
+                        s.yield_(("tables", side), lambda: size() <= base)
+                    n = size()
+                    self.first_tablesize.setdefault(side, n)
                     self.ev("ret", side, "tablesize", 0, n, "ok")
                 elif k == "wait_gate":
                     s.yield_(("gate", op[1]), lambda: op[1] in self.ns["i"] or op[1] in self.ns["w"])
